@@ -281,3 +281,36 @@ func (d *dir) shape() string {
 	}
 	return s
 }
+
+
+// knownGiveUp is a model of ONE known, recorded defect (known_findings.json),
+// used only to give its failures their own violation key, never to judge a
+// result: when sequence number 1 is missing, findBound bisects upwards from 1
+// (1, (1+upper)/2, ...), takes every existing state at or after t as the new
+// upper bound and restarts, and GIVES UP with the current upper bound as soon
+// as the bisection cannot move ("upper is probably the best we can do"),
+// jumping over existing earlier states it never requested. It returns the
+// answer that behaviour produces and whether the give-up branch was taken.
+func (d *dir) knownGiveUp(t time.Time) (int, bool) {
+	upper := d.newest()
+	if upper == 0 || t.After(d.ts(upper)) || d.present(1) {
+		return 0, false
+	}
+	lowerID := 1
+	for steps := 0; steps < 10000; steps++ {
+		if d.present(lowerID) {
+			if !d.ts(lowerID).Before(t) {
+				upper = lowerID
+				lowerID = 1
+			} else {
+				return 0, false // a real lower bound was found: not the give-up path
+			}
+		}
+		newID := (lowerID + upper) / 2
+		if newID <= lowerID {
+			return upper, true
+		}
+		lowerID = newID
+	}
+	return 0, false
+}
